@@ -211,7 +211,7 @@ func createEventSchema(ctx *fiber.Ctx, meta EventMeta, configId ConfigurationId)
 						OwnerIdentity: EventUserIdentity{
 							PrincipalId: meta.BucketOwner,
 						},
-						Arn: fmt.Sprintf("arn:aws:s3:::%v", strings.Join(path, "/")),
+						Arn: fmt.Sprintf("arn:aws:s3:::%v", bucket),
 					},
 					Object: EventObjectData{
 						Key:       object,
